@@ -51,7 +51,7 @@ Section C10.
 
   (** Work bound: whatever the header and whatever the passphrase, the key
       derivation runs at most once, and only with a work factor [n] that is
-      written in the stanza as a canonical positive decimal ([1-9][0-9]*) and
+      written in the stanza as a canonical positive decimal ([1-9][0-9]* ) and
       satisfies [1 <= n <= m] for the identity's configured maximum [m]. *)
   Theorem C10_work_bound :
     forall (pass : bytes) (m : N) (ss : list stanza) (r : res bytes) (work : list N),
